@@ -254,6 +254,8 @@ def r3_echo_taint(ctx):
 # --------------------------------------------------------------------------- R4 no partial output
 def r4_no_partial_output(ctx):
     km = KeyMaker()
+    for o in current_nodes_stay_set(ctx):
+        yield o
     for mod, cname in VISITORS:
         cls = ctx.cls(mod, cname)
         for f in cls.body:
@@ -311,6 +313,36 @@ def r4_no_partial_output(ctx):
                              msg='' if not reach else 'the field is None whenever the input omits the element: the raise aborts the visitor '
                              'and leaves a truncated acknowledgement',
                              note=None if reach else 'explicit raise on a tree state the constructors exclude; cross-reference only')
+
+
+def current_nodes_stay_set(ctx):
+    """visit_root_pre writes the ISA of the acknowledgement and then reads errh.cur_gs_node (and cur_isa_node) without a
+    test: once a group / interchange has been seen these fields must stay set for the rest of the run.  In err_handler
+    they are None only from __init__; every other store binds a node (a reset at the next ISA makes an interchange
+    without a group abort the visitor after the ISA is out: an acknowledgement of one segment)."""
+    derefd = set()
+    for mod, cname in VISITORS:
+        cls = ctx.cls(mod, cname)
+        for x in ast.walk(cls):
+            if isinstance(x, ast.Attribute) and isinstance(x.value, ast.Attribute) and path_of(x.value) and path_of(x.value).startswith('errh.cur_'):
+                derefd.add(path_of(x.value)[5:])
+    if not derefd:
+        raise AnalysisError('the visitors no longer read errh.cur_* nodes')
+    eh = ctx.cls('error_handler', 'err_handler')
+    for attr in sorted(derefd):
+        bad = None
+        for f in eh.body:
+            if not isinstance(f, ast.FunctionDef) or f.name == '__init__':
+                continue
+            for st in ast.walk(f):
+                if isinstance(st, ast.Assign) and any(path_of(t) == 'self.' + attr for t in st.targets) and isinstance(st.value, ast.Constant) and st.value.value is None:
+                    bad = (f, st)
+                if isinstance(st, ast.Delete) and any(path_of(t) == 'self.' + attr for t in st.targets):
+                    bad = (f, st)
+        yield Ob('error_handler:err_handler.%s is never cleared once set (the visitors dereference it unguarded)' % attr, bad is None,
+                 ctx.loc('error_handler', bad[1]) if bad else 'pyx12/error_handler.py',
+                 '' if bad is None else '%s clears it (`%s`): an input whose last interchange has no group makes visit_root_pre fail after the ISA '
+                 'was written - the acknowledgement ends there' % (bad[0].name, norm(bad[1])))
 
 
 # --------------------------------------------------------------------------- R5 / R6
